@@ -262,7 +262,9 @@ impl<'ast, 'arena> ProgramFacts<'ast, 'arena> {
         }
         self.locals.push(LocalInfo { name, owner, declaring_scope, decl_span, decl_stmt, kind });
         self.scope_locals[declaring_scope.0 as usize].push(id);
-        function.locals_len += 1;
+        // The range spans from the function's first to its last local: nested
+        // functions declare their locals in between, so ids are not contiguous.
+        function.locals_len = id.0 - function.locals_start + 1;
         id
     }
 
